@@ -47,7 +47,7 @@ def main():
     na = [{'property_id': pid, 'reason': NOT_YET} for pid in sorted(TITLES) if pid not in CLAIMED]
     m = {
         'version': 1,
-        'setup_cmd': 'cd lean && lake build T4V driver',
+        'setup_cmd': 'cd lean && lake build',
         'hooks': {
             'guard': 'T4GC_VERIF',
             'enable': ('no source hooks are needed: the harness imports /repo\'s working tree in-process (sys.path) and wraps '
